@@ -28,8 +28,8 @@ atomic_valence[7] = [3, 4]
 atomic_valence[8] = [2, 1, 3]
 atomic_valence[9] = [1]
 atomic_valence[14] = [4]
-atomic_valence[15] = [5, 3]  # [5,4,3]
-atomic_valence[16] = [6, 3, 2]  # [6,4,2]
+atomic_valence[15] = [3, 5]  # standard valence first
+atomic_valence[16] = [2, 6, 3]  # standard valence first
 atomic_valence[17] = [1]
 atomic_valence[32] = [4]
 atomic_valence[35] = [1]
